@@ -10,7 +10,7 @@ import (
 func init() { register("C10", "other", checkC10) }
 
 func checkC10(c *Ctx, r *Report) {
-	r.Explanation = "Decided: (1) append contract by symbolic lengths: every member of the length set of Seal's result is len(dst)+len(plaintext)+tagSize, of Open's accepted result len(dst)+len(ciphertext)-tagSize, of Sum's result len(in)+32 — on the spare-capacity and on the reallocation path; ensureCapacity (both architectures) returns a reslice of its argument when capacity suffices (shared backing array: dst is the prefix) and otherwise a new slice into which the whole prefix is copied (copy / copyAsm with the prefix length); CONSUMPTION: copyAsm, gHashBlocks and the fused Seal/Open routines advance every streamed parameter to its end on every path (every input byte is consumed, every destination byte of the contract is produced); (2) INPUT-WRITE [proof-strength effect analysis]: for every API entry point no parameter other than the destination, and no receiver-owned or package-level storage, is in a may-write position of any callee, Go or assembler (may-write sets computed from the assembler listing) — on amd64 and arm64; (3) exact overlap: in every kernel and in the fused Seal/Open routines no load from the input happens after a store to the destination that covers the same bytes (LOAD-BEFORE-STORE per path, with absolute symbolic extents), so dst == src works. NOT decided: the bytes of the output (C05/C06)."
+	r.Explanation = "Decided: (1) APPEND-CONTRACT (glue domain: Seal and Open interpreted path by path over symbolic lengths and capacities, ensureCapacity and its callees followed, assembler routines by contract): on every successful outcome the result has length len(dst)+len(plaintext)+tagSize (Seal) / len(dst)+len(ciphertext)-tagSize (Open) and is either dst's own array from offset 0 (spare capacity) or a fresh array into which the len(dst) prefix bytes of dst were copied; Sum's result has length len(in)+32; CONSUMPTION: copyAsm, gHashBlocks and the fused Seal/Open routines advance every streamed parameter to its end on every path (every input byte is consumed, every destination byte of the contract is produced); (2) INPUT-WRITE [proof-strength effect analysis]: for every API entry point no parameter other than the destination, and no receiver-owned or package-level storage, is in a may-write position of any callee, Go or assembler (may-write sets computed from the assembler listing) — on amd64 and arm64; (3) exact overlap: in every kernel and in the fused Seal/Open routines no load from the input happens after a store to the destination that covers the same bytes (LOAD-BEFORE-STORE per path, with absolute symbolic extents), so dst == src works. NOT decided: the bytes of the output (C05/C06)."
 	r.Trusted = []string{"go/ssa", "assembler listing, opcode table", "Go append/copy semantics"}
 	for _, arch := range []string{"amd64", "arm64"} {
 		p, e, u := loadEffects(c, r, arch)
@@ -19,7 +19,7 @@ func checkC10(c *Ctx, r *Report) {
 		}
 		inputWriteObligations(r, p, e, arch)
 		c10Append(r, p, arch)
-		c10EnsureCapacity(r, p, arch)
+		glueGCM(r, p, arch, map[string]bool{"C10": true})
 		// (3) exact overlap + copy consumption
 		contracts := asmContracts(arch)
 		dataSize := map[string]int{}
@@ -83,8 +83,10 @@ func checkC10(c *Ctx, r *Report) {
 	r.Floor("positive_controls", 5)
 	r.Floor("api_entry_points_amd64", 25)
 	r.Floor("param_obligations_amd64", 60)
-	r.Floor("append_contracts_amd64", 3)
-	r.Floor("append_contracts_arm64", 3)
+	r.Floor("append_contracts_amd64", 1)
+	r.Floor("append_contracts_arm64", 1)
+	r.Floor("append_outcomes_amd64", 4)
+	r.Floor("append_outcomes_arm64", 4)
 	r.Floor("overlap_routines_amd64", 6)
 	r.Floor("overlap_routines_arm64", 10)
 }
@@ -96,14 +98,7 @@ func c10Append(r *Report, p *Prog, arch string) {
 		accept func(ret *ssa.Return) bool
 		what   string
 	}
-	tag := func(env *LinEnv, fn *ssa.Function) *Lin { return env.Int(tagSizeLoad(fn)) }
 	specs := []spec{
-		{"sm4.(*sm4GcmAsm).Seal", func(env *LinEnv, fn *ssa.Function) *Lin {
-			return linTerm("len(dst)", true).Add(linTerm("len(plaintext)", true)).Add(tag(env, fn))
-		}, func(ret *ssa.Return) bool { return true }, "len(dst)+len(plaintext)+tagSize"},
-		{"sm4.(*sm4GcmAsm).Open", func(env *LinEnv, fn *ssa.Function) *Lin {
-			return linTerm("len(dst)", true).Add(linTerm("len(ciphertext)", true)).Sub(tag(env, fn))
-		}, func(ret *ssa.Return) bool { return isNilConst(retVals(ret)[1]) }, "len(dst)+len(ciphertext)-tagSize"},
 		{"sm3.(*SM3).Sum", func(env *LinEnv, fn *ssa.Function) *Lin {
 			return linTerm("len(in)", true).Add(linConst(32))
 		}, func(ret *ssa.Return) bool { return true }, "len(in)+32"},
